@@ -360,7 +360,8 @@ func H_C05_writers() {
 // Write returns nil only after emitting exactly the response's bytes, contiguously.
 func H_C05_step() {
 	r, w, sink, id := vRespSetup()
-	msg := vS("diag")
+	msg := vStr("diag") // any size: below, at and beyond the 4096-byte write buffer
+	vAssume(len(msg) < 1<<16)
 	resp := r.NewResponse(WithResponseCode(ResultSuccess), WithDiagnosticMessage(msg))
 	fail := vBool("writeFails")
 	vConnSet(r.conn.netConn, "writeFail", fail)
